@@ -153,4 +153,16 @@ CHECKS = {
              'finalised circuit refuses new blocks, connect() and set_persistent_data(). 21 classes of invalid '
              'references must fail at construction, in finalize() or at start.',
         note='Cyclic wiring is generated only through constant-output probe blocks (it must still start).'),
+    'C05': dict(
+        level='exploration', design_ref='DESIGN.md 4/C05',
+        technique=PBT + '; own model of the documented initialisation algorithm (verdict, outputs, per-block call log, duration of the asynchronous phase) + metamorphic relation over creation-order permutations',
+        text='Generated per-block combinations of init sources (saved state valid/rejected, init_async ok/fail/never with '
+             'init_timeout 0/2/5, init_regular, initdef), Input without initdef, ValuePoll (value, UNDEF first, async, '
+             'raising), InitAsync, an acyclic init-time event topology, an optionally failing first evaluation (with a '
+             'block having async clean-up), 1-2 wait_init() waiters; each configuration is started in up to 4 (thorough: '
+             'all) creation orders. wait_init() must return iff the model predicts success, then with every output '
+             'defined and equal to the predicted one at the predicted virtual instant (never later than the largest '
+             'init_timeout), each routine called at most once and in the documented order, early synchronous '
+             'initialisation before an init-time event is handled; the verdict must not depend on the creation order.',
+        note='No tie between a completion and a time-out is generated.'),
 }
